@@ -57,6 +57,7 @@ static void reset_sources () { g_normal.clear(); g_uniform.clear(); g_random.cle
 struct A_ {
   std::vector<std::string> tok; size_t pos = 0;
   bool done () const { return pos >= tok.size() || tok[pos][0] == '#'; }
+  bool peek_is (const char* w) const { return pos < tok.size() && tok[pos] == w; }
   const std::string& next () { if (pos >= tok.size()) throw std::runtime_error("protocol:missing argument"); return tok[pos++]; }
   double d () { unsigned long long u = std::stoull (next(), 0, 16); double x; memcpy (&x, &u, 8); return x; }
   unsigned n () { return (unsigned) std::stoul (next()); }
@@ -166,6 +167,11 @@ static void report (O_& O, const Moments& M, const Vector<4,double>& pm, const M
 }
 
 static BoxMuller g_bm (0);
+// modes with static storage duration, defined in the harness translation unit (which precedes the library on the link line): they
+// are constructed before main and before the library's own dynamic initialisers, and are never configured afterwards
+static epsic::mode g_early_mode;
+struct early_aggregate { int tag; epsic::mode member; early_aggregate () : tag (7) {} };
+static early_aggregate g_early_aggregate;
 
 int main ()
 {
@@ -180,7 +186,11 @@ int main ()
     O.put (Vector<4,double>(m.get_mean())); O.put (m.get_covariance()); O.put (m.get_crosscovariance(0)); O.put (m.get_crosscovariance(1)); O.put (m.get_crosscovariance(7)); };
   // oracle: exact Gaussian ensemble moments of the generated Stokes parameters by product cubature through the deviate source
   // (nodes 0,±1,±2 with weights 1/2,1/6,1/12: exact for polynomials of degree <= 5 per deviate; Stokes products are of degree 4)
-  OP("o.c01.moments") { Stokes<double> S = A.stokes(); epsic::mode m; m.set_Stokes (S); m.set_normal (&g_bm);
+  OP("o.c01.moments") { std::string which = A.peek_is ("early") ? A.next() : std::string ("local"); unsigned sel = which == "early" ? A.n() : 0;
+    epsic::mode local; epsic::mode* heap = 0; if (which == "early" && sel == 2) heap = new epsic::mode;
+    epsic::mode& m = (which == "early") ? (sel == 0 ? g_early_mode : sel == 1 ? g_early_aggregate.member : *heap) : local;
+    Stokes<double> S = (which == "early") ? Stokes<double> (1.0) : A.stokes();     // a mode that was never configured describes unit unpolarised intensity
+    if (which != "early") m.set_Stokes (S); m.set_normal (&g_bm);
     static const float node[5] = { 0, 1, -1, 2, -2 }; static const long double wt[5] = { 0.5L, 1.0L/6, 1.0L/6, 1.0L/12, 1.0L/12 };
     long double mean[4] = {0,0,0,0}, sec[4][4]; for (int i=0;i<4;i++) for (int j=0;j<4;j++) sec[i][j] = 0; bool finite = true;
     for (int a=0;a<5;a++) for (int b=0;b<5;b++) for (int c=0;c<5;c++) for (int d=0;d<5;d++) {
